@@ -40,6 +40,9 @@ def small_cfg_key(cfg):
                                              "x".join(map(str, cfg["tshape"])) or "0d", cfg["slots"])
 
 
+NEWMARK_BETA = 0.25
+
+
 def make_small_energy(cfg):
     import jax
     import jax.numpy as np
@@ -61,6 +64,13 @@ def make_small_energy(cfg):
         if has4:
             t = np.atleast_1d(p[4])
             e = e + np.sum(t) * (a["c4"] @ x) + 0.5 * np.sum(t ** 2) * (a["c5"] @ x) ** 2
+        # Newmark-type inertia term on the dynamic data (slot 5): 0.5/(beta dt^2) (x - xd)^T M (x - xd), dt from the time slot
+        # (optional here, as in a code that serves statics and dynamics with one energy; mandatory in the FE energies)
+        dyn = p[5]
+        if dyn is not None:
+            dt = (0.5 + np.sum(np.atleast_1d(p[4]) ** 2)) if has4 else 1.0
+            dx = x - dyn["xd"]
+            e = e + 0.5 / (NEWMARK_BETA * dt ** 2) * np.sum(dyn["m"] * dx * dx)
         return e
 
     def upd(x, p):
@@ -93,6 +103,8 @@ def small_coeffs(cfg, rng, cond=None):
         "D": rng.standard_normal((n, nd)), "c2": rng.standard_normal(n) * sq,
         "c4": rng.standard_normal(n), "c5": 0.5 * sq * rng.standard_normal(n),
         "E": rng.standard_normal((ns, n)) * sq,
+        # slot 5 (dynamic data), split off by make_params: predictor and lumped mass of the inertia term
+        "dyn": {"xd": 0.5 * rng.standard_normal(n), "m": rng.uniform(0.05, 0.5, n)},
     }
     return a, cond
 
@@ -128,8 +140,20 @@ def make_params(vals, app):
     import jax
     from optimism import Objective
     g = lambda k: (np.asarray(vals[k], dtype=float) if k in vals and vals[k] is not None else None)
-    appj = jax.tree_util.tree_map(lambda z: np.asarray(z, dtype=float), app) if app is not None else None
-    return Objective.Params(g(0), g(1), g(2), appj, g(4))
+    appj, dynj = split_app(app)
+    return Objective.Params(g(0), g(1), g(2), appj, g(4), dynj)
+
+
+def split_app(app):
+    """The harness keeps its random coefficients in one dict; the entry 'dyn' becomes slot 5 (dynamic_data), the rest slot 3
+    (app_data).  Both are non-differentiable slots the energy genuinely reads."""
+    import jax
+    import jax.numpy as np
+    if app is None:
+        return None, None
+    conv = lambda t: jax.tree_util.tree_map(lambda z: np.asarray(z, dtype=float), t)
+    rest = {k: v for k, v in app.items() if k != "dyn"}
+    return conv(rest), (conv(app["dyn"]) if "dyn" in app else None)
 
 
 # --------------------------------------------------------------------------------------------------------------
@@ -210,6 +234,10 @@ def build_fe_problem(cfg):
         e = mf.compute_strain_energy(U, p[1])
         if p[4] is not None:
             e = e - p[4] * np.sum(p[3]["fext"] * U)
+        # Newmark-type inertia on the dynamic data (slot 5): nodal masses m, predictor ud, dt from the time slot
+        dt = 0.5 + (p[4] ** 2 if p[4] is not None else 0.5)
+        dU = U - p[5]["ud"]
+        e = e + 0.5 / (NEWMARK_BETA * dt ** 2) * np.sum(p[5]["m"] * dU * dU)
         return e
 
     def upd(Uu, p):
@@ -225,7 +253,8 @@ def build_fe_problem(cfg):
           "fs0": fs0, "mf0": mf0, "has_state": state0.size > 0}
     d0 = onp.asarray(mesh.coords) if design == "coords" else onp.ones((int(mesh.conns.shape[0]), 1))
     vals = {0: onp.zeros(nbc), 1: state0, 2: d0, 4: onp.asarray(0.0)}
-    p = make_params(vals, {"fext": onp.zeros(onp.asarray(mesh.coords).shape)})
+    nn = onp.asarray(mesh.coords).shape
+    p = make_params(vals, {"fext": onp.zeros(nn), "dyn": {"ud": onp.zeros(nn), "m": onp.ones((nn[0], 1))}})
     with _quiet():
         obj = Objective.Objective(f, np.zeros(nu), p)
     return {"cfg": cfg, "f": f, "upd": (upd if fe["has_state"] else None), "obj": obj, "n": nu, "fe": fe}
@@ -254,7 +283,9 @@ def fe_inputs(prob, rng, amp):
         d = rng.uniform(0.6, 1.4, size=(int(mesh.conns.shape[0]), 1))
     fext = rng.standard_normal(c.shape) * (0.02 if prob["cfg"]["material"].startswith("neo") else 0.05)
     t = onp.asarray(rng.uniform(0.5, 1.5))
-    return {0: b, 1: fe["state0"].copy(), 2: d, 4: t}, {"fext": fext}
+    stiff = 0.3 if prob["cfg"]["material"].startswith("neo") else 3.0       # ~ a few % of the nodal stiffness
+    dyn = {"ud": 0.3 * amp * rng.standard_normal(c.shape), "m": stiff * NEWMARK_BETA * rng.uniform(0.2, 1.0, size=(nn, 1))}
+    return {0: b, 1: fe["state0"].copy(), 2: d, 4: t}, {"fext": fext, "dyn": dyn}
 
 
 # --------------------------------------------------------------------------------------------------------------
